@@ -230,6 +230,43 @@ def sec_other_caches(rep):
     rep.add(ob_eval("C14/heavy.n3lo.interpolator/post(value = spline of the file named by (coeff, nf, variation); loaded once per name)", ok, detail=f"{len(loads)} loads"))
 
 
+def sec_shared_state(rep):
+    """Objects that several requests see must not carry one request's state into the next:
+    (i) a kinematics dict handed to a TMC object stays as it was (cross sections pass the same
+    dict to F2, FL, F3 in turn; cards may share one list between observables);
+    (ii) the scale-variation manager of a runner is shared by all points: asked for a sequence of
+    flavour numbers it answers each with that number's matrices and coefficients (contract shared
+    with C05, re-discharged here)."""
+    from yadism.esf import tmc
+    from . import c05
+
+    sy = H.Sy()
+    pre = [sy.x > 0, sy.x <= 1, sy.Q2 > 0, sy.M2target >= 0]
+    for kind in ("F2", "FL", "F3", "g1"):
+        rep.cases += 1
+
+        def case(sy, kind=kind):
+            class SF_:
+                class runner:
+                    class configs:
+                        M2target = sy.M2target
+
+            kin = {"x": sy.x, "Q2": sy.Q2, "y": sy.y}
+            o = tmc.ESFTMCmap[kind](SF_, kin)
+            o2 = tmc.ESFTMCmap[kind](SF_, kin)
+            return [("kinematics dict keys", sorted(kin), ["Q2", "x", "y"]), ("x untouched", kin["x"], sy.x), ("Q2 untouched", kin["Q2"], sy.Q2), ("y untouched", kin["y"], sy.y),
+                    ("second object built from the same dict sees the same point", (o2.x, o2.Q2), (o.x, o.Q2)), ("shifted kinematics is a fresh dict", o._shifted_kinematics is not kin, True)]
+
+        rep.check(f"C14/shared-state/TMC object leaves its kinematics dict untouched/{kind}", case, sy, pre)
+    n0 = len(rep.obs)
+    c05.sec_tables(rep)
+    keep = [o for o in rep.obs[n0:] if "/history/" in o.name]
+    del rep.obs[n0:]
+    for o in keep:
+        o.name = o.name.replace("C05/history/", "C14/shared-state/scale-variation manager/", 1)
+        rep.obs.append(o)
+
+
 def sec_runner(rep):
     """Runner.get_result: for every ordering of the Q2 values (ties included) results[i] is the
     result of element i; the plan is a snapshot taken before the calculation."""
@@ -418,7 +455,7 @@ def run(rep, tier, seed, only=None):
         "history independence is the induction over public operations described in DESIGN C14; the machine-checked part is that every memo table's key determines the inputs of the cached computation and that each operation returns what a fresh computation would",
         "dict lookups hash their keys: key collisions cannot be explored symbolically, so key *construction* is checked symbolically (components by name) and lookup on concrete histories",
     )
-    for nm, f in (("sf_cache", sec_sf_cache), ("esf", sec_esf_memo), ("other", sec_other_caches), ("runner", sec_runner), ("frame", sec_frame), ("bounded", lambda r: sec_bounded_end_to_end(r, tier))):
+    for nm, f in (("sf_cache", sec_sf_cache), ("esf", sec_esf_memo), ("other", sec_other_caches), ("shared", sec_shared_state), ("runner", sec_runner), ("frame", sec_frame), ("bounded", lambda r: sec_bounded_end_to_end(r, tier))):
         if only and only not in nm:
             continue
         rep.add(guarded(f"C14/{nm}", lambda f=f: (f(rep), [])[1]))
